@@ -60,9 +60,9 @@ Theorem C09_witnesses_repaired :
   satisfies cur case_f7 = true /\ satisfies cur case_f12 = true.
 Proof. exact repaired_all. Qed.
 Theorem C09_each_repair_needed :
-  refutes (mkFixes false true true) case_f6 = true /\
-  refutes (mkFixes true false true) case_f7 = true /\
-  refutes (mkFixes true true false) case_f12 = true.
+  refutes (mkFixes false true true true) case_f6 = true /\
+  refutes (mkFixes true false true true) case_f7 = true /\
+  refutes (mkFixes true true false true) case_f12 = true.
 Proof. exact each_repair_needed. Qed.
 Print Assumptions C09_refuted_F12_orig.
 
